@@ -649,11 +649,64 @@ def _config_field_writes(cls_node, fields):
     return out
 
 
-def rule_r9(chk, p, t):
+def _with_flow(cls_node, mname, val, write_node):
+    """The written value together with everything it is computed from inside the method: the definitions and in-place
+    modifications (`x.append(..)`, `x += ..`, `x[k] = ..`) of every local that flows into it, and the tests of the
+    `if` / `while` statements those statements - and the write itself - sit under (a value appended only when another
+    setting is switched on depends on that setting).  Returned as one tuple expression, to be scanned for field reads."""
+    m = next((x for x in cls_node.body if isinstance(x, (ast.FunctionDef, ast.AsyncFunctionDef)) and x.name == mname), None)
+    if m is None or val is None:
+        return val
+    parents = {}
+    for n in ast.walk(m):
+        for c in ast.iter_child_nodes(n):
+            parents[id(c)] = n
+
+    def tests_over(n):
+        out = []
+        cur = parents.get(id(n))
+        prev = n
+        while cur is not None and cur is not m:
+            if isinstance(cur, (ast.If, ast.While)) and prev is not cur.test:
+                out.append(cur.test)
+            if isinstance(cur, ast.IfExp) and prev is not cur.test:
+                out.append(cur.test)
+            prev, cur = cur, parents.get(id(cur))
+        return out
+
+    parts = [val] + tests_over(write_node)
+    flow = {x.id for x in ast.walk(val) if isinstance(x, ast.Name)} - {"self", "cls", "values", "data", "model"}
+    seen_stmts = set()
+    for _round in range(6):
+        grew = False
+        for n in ast.walk(m):
+            src = None
+            if isinstance(n, ast.Assign) and any(isinstance(tg, ast.Name) and tg.id in flow for tg in n.targets):
+                src = n.value
+            elif isinstance(n, ast.Assign) and any(isinstance(tg, ast.Subscript) and isinstance(tg.value, ast.Name) and tg.value.id in flow for tg in n.targets):
+                src = ast.Tuple(elts=[n.value] + [tg.slice for tg in n.targets if isinstance(tg, ast.Subscript)], ctx=ast.Load())
+            elif isinstance(n, (ast.AugAssign, ast.AnnAssign)) and isinstance(n.target, ast.Name) and n.target.id in flow and n.value is not None:
+                src = n.value
+            elif isinstance(n, ast.Call) and isinstance(n.func, ast.Attribute) and isinstance(n.func.value, ast.Name) and n.func.value.id in flow and n.func.attr in ("append", "extend", "insert", "add", "update", "remove", "discard", "pop", "setdefault"):
+                src = ast.Tuple(elts=list(n.args) + [k.value for k in n.keywords], ctx=ast.Load())
+            if src is None or id(n) in seen_stmts:
+                continue
+            seen_stmts.add(id(n))
+            parts += [src] + tests_over(n)
+            new = {x.id for p_ in [src] + tests_over(n) for x in ast.walk(p_) if isinstance(x, ast.Name)} - {"self", "cls", "values", "data", "model"}
+            if not new <= flow:
+                flow |= new
+                grew = True
+        if not grew:
+            break
+    return ast.Tuple(elts=parts, ctx=ast.Load())
+
+
+def rule_r9(chk, p, t, rid="C10.R9", only=None):
     r = chk.rule(
-        "C10.R9",
+        rid,
         "the configured propagation parameters are what the user wrote: no validator derives them from other settings",
-        4,
+        4 if only is None else len(only),
         "the physics step, the propagation model, the geopotential degree / order and the perturbation switches reach the "
         "truth dynamics as configuration fields (R5).  A validator or method of their configuration class that assigns one "
         "of them from *another* field (`if output_step_sec < physics_step_sec: physics_step_sec = output_step_sec`) lets a "
@@ -668,13 +721,18 @@ def rule_r9(chk, p, t):
             continue
         for ci in mod.classes.values():
             fields = _DYNAMICS_FIELDS.get(ci.name)
-            if not fields:
+            if not fields or (only is not None and ci.name not in only):
                 continue
             n_cls += 1
             bad = []
             for mname, fld, val, node in _config_field_writes(ci.node, fields):
+                val = _with_flow(ci.node, mname, val, node)
                 reads = {x.attr for x in ast.walk(val) if isinstance(x, ast.Attribute) and isinstance(x.value, ast.Name) and x.value.id in ("self", "cls", "values", "data", "model")} | {x.slice.value for x in ast.walk(val) if isinstance(x, ast.Subscript) and isinstance(x.slice, ast.Constant) and isinstance(x.slice.value, str)}
                 other = sorted(reads - {fld})
+                if rid.startswith("C10"):
+                    # one dynamics setting derived from another one of the same section is still a function of the dynamics
+                    # settings (whether the force model is then the configured one is C13's question: C13.R9)
+                    other = [o for o in other if o not in fields]
                 if other:
                     bad.append((mname, fld, other, node))
             if bad:
@@ -682,11 +740,99 @@ def rule_r9(chk, p, t):
                 r.violation(ci.qualname, f"derived-dynamics-setting:{fld}<-{','.join(other)}", f"{ci.name}.{mname} sets `{fld}` from {other}: a setting that does not belong to the dynamics decides how the truth is propagated", f"{mod.relpath}:{node.lineno}")
             else:
                 r.ok(ci.qualname, f"fields {sorted(fields)} are never derived from other settings", ci.loc())
-    if n_cls < 4:
+    if n_cls < (4 if only is None else len(only)):
         r.error("config-classes", f"only {n_cls} of the propagation configuration classes found")
     tree = ast.parse(_CONFIG_SELFTEST)
     if len(_config_field_writes(tree.body[0], _DYNAMICS_FIELDS["TimeConfig"])) != 1:
         r.error("selftest", "the embedded positive example is not recognised")
+
+
+_CLASS_DEFAULT_SELFTEST = """
+class Agent:
+    queue: list = []
+    LABELS = ("a", "b")
+    table = {}
+
+    def push(self, e):
+        self.queue.append(e)
+
+    def look(self, k):
+        return self.table.get(k)
+"""
+
+
+def _shared_mutable_defaults(cls_node, all_methods):
+    """[(attribute, class-level statement, mutating node)] for class-body attributes bound to a mutable object (list / dict
+    / set display or constructor) that some method modifies in place through an instance (`self.X.append`, `self.X[k] =`,
+    `self.X += ...`)."""
+    from rsa.inplace import _MUT_METHODS
+
+    out = []
+    for st in cls_node.body:
+        tg = val = None
+        if isinstance(st, ast.Assign) and len(st.targets) == 1 and isinstance(st.targets[0], ast.Name):
+            tg, val = st.targets[0].id, st.value
+        elif isinstance(st, ast.AnnAssign) and isinstance(st.target, ast.Name) and st.value is not None:
+            tg, val = st.target.id, st.value
+        if tg is None:
+            continue
+        mutable = isinstance(val, (ast.List, ast.Dict, ast.Set, ast.ListComp, ast.DictComp, ast.SetComp)) or (isinstance(val, ast.Call) and call_name(val) in ("list", "dict", "set", "defaultdict", "deque", "OrderedDict", "Counter"))
+        if not mutable:
+            continue
+        for m in all_methods:
+            for n in ast.walk(m):
+                hit = None
+                if isinstance(n, ast.Call) and isinstance(n.func, ast.Attribute) and n.func.attr in _MUT_METHODS | {"add", "discard", "setdefault", "popitem", "appendleft"} and unparse(n.func.value) in (f"self.{tg}", f"cls.{tg}"):
+                    hit = n
+                elif isinstance(n, (ast.Assign, ast.AugAssign, ast.Delete)):
+                    tgs = n.targets if isinstance(n, (ast.Assign, ast.Delete)) else [n.target]
+                    for x in tgs:
+                        if isinstance(x, ast.Subscript) and unparse(x.value) in (f"self.{tg}", f"cls.{tg}"):
+                            hit = n
+                        if isinstance(n, ast.AugAssign) and unparse(x) in (f"self.{tg}", f"cls.{tg}"):
+                            hit = n
+                if hit is not None:
+                    out.append((tg, st, hit, m))
+                    break
+            else:
+                continue
+            break
+    return out
+
+
+def rule_r10(chk, p, t):
+    r = chk.rule(
+        "C10.R10",
+        "no agent, dynamics or event object shares a mutable class-level default with its siblings",
+        20,
+        "an attribute bound in a class BODY to a list / dict / set is one object for all instances until an instance "
+        "re-binds it; if any method of the class hierarchy modifies it in place through an instance (`self.X.append`, "
+        "`self.X[k] = v`, `self.X += ...`) the modification is seen by every other agent of the process: an event queued "
+        "for one spacecraft is propagated by all of them, and the truth of B depends on whether A is in the scenario.  "
+        "Checked for every class of resonaate.agents, resonaate.dynamics, resonaate.scenario.events and "
+        "resonaate.scenario.clock, methods of super- and subclasses included; class-level constants that are only read "
+        "pass",
+        "state shared through the database or the key-value store (R8 covers assignments to class attributes)",
+    )
+    st = ast.parse(_CLASS_DEFAULT_SELFTEST).body[0]
+    got = _shared_mutable_defaults(st, [m for m in st.body if isinstance(m, ast.FunctionDef)])
+    if [g[0] for g in got] != ["queue"]:
+        r.error("selftest", f"the embedded examples are not classified as expected: {[g[0] for g in got]}")
+    n = 0
+    for q, ci in sorted(p.classes.items()):
+        if not q.startswith(("resonaate.agents", "resonaate.dynamics", "resonaate.scenario.events", "resonaate.scenario.clock")):
+            continue
+        n += 1
+        hier = [ci] + list(p.mro(ci))[1:] + list(p.subclasses(ci))
+        methods = [m.node for c in hier for m in c.methods.values()]
+        bad = _shared_mutable_defaults(ci.node, methods)
+        if bad:
+            attr, stmt, hit, m = bad[0]
+            r.violation(ci.qualname + "." + attr, f"shared-class-default:{ci.name}.{attr}", f"`{unparse(stmt)[:60]}` in the body of class {ci.name} is ONE object shared by every instance, and `{unparse(hit)[:60]}` ({m.name}) modifies it in place: what one agent queues / records is seen by all the others of the process (until each re-binds the attribute) - the truth of one object then depends on which other objects exist", f"{ci.module.relpath}:{stmt.lineno}")
+        else:
+            r.ok(ci.qualname, "no class-level mutable default is modified through an instance", ci.loc())
+    if n < 20:
+        r.error("classes", f"only {n} classes examined")
 
 
 def run(chk, p, t):
@@ -701,7 +847,7 @@ def run(chk, p, t):
         "splitting keep no state. NOT decided: bit-for-bit determinism of SciPy and of Ray serialisation."
     )
     chk.assumptions += ["ray.put / ray.get are a deep-copy boundary", "dynamicsFactory returns a fresh object per call (no caching; checked: it constructs TwoBody / SpecialPerturbations / Terrestrial)"]
-    steps = [("C10.R1", rule_r1), ("C10.R2", rule_r2), ("C10.R3", rule_r3), ("C10.R4", rule_r4_r5), ("C10.R6", rule_r6), ("C10.R7", rule_r7), ("C10.R8", rule_r8), ("C10.R9", rule_r9)]
+    steps = [("C10.R1", rule_r1), ("C10.R2", rule_r2), ("C10.R3", rule_r3), ("C10.R4", rule_r4_r5), ("C10.R6", rule_r6), ("C10.R7", rule_r7), ("C10.R8", rule_r8), ("C10.R9", rule_r9), ("C10.R10", rule_r10)]
     for rid, fn in steps:
         if chk.only_rule is not None and chk.only_rule != rid and not (chk.only_rule == "C10.R5" and rid == "C10.R4"):
             continue
